@@ -33,7 +33,7 @@ var defaultRedirects = map[string]string{
 	"sort.Strings":                       "golang.org/x/telemetry/internal/vrt.SortStrings",
 }
 
-var defaultSkipInit = []string{"unicode", "runtime", "os", "syscall", "internal/poll", "net", "net/http", "crypto/rand", "reflect", "encoding/json", "regexp", "regexp/syntax", "log", "fmt", "flag", "testing", "internal/godebug", "math/rand", "html", "time", "crypto/tls", "crypto/x509"}
+var defaultSkipInit = []string{"unicode", "runtime", "os", "syscall", "internal/poll", "net", "net/http", "crypto/rand", "reflect", "encoding/json", "regexp", "regexp/syntax", "log", "fmt", "flag", "testing", "internal/godebug", "math/rand", "html", "crypto/tls", "crypto/x509"}
 
 func tup(vs ...Value) *Tuple { return &Tuple{V: vs} }
 
@@ -182,9 +182,23 @@ func (e *Engine) initIntrinsics() {
 	in["vrt.MarkDead"] = func(p *Path, fn *ssa.Function, args []Value) Value {
 		s := args[0].(*Slice)
 		if s.Obj != nil && s.Obj.Buf != nil {
-			s.Obj.Buf.Dead = true
+			s.Obj.Dead = true
 		}
 		return nil
+	}
+	in["vrt.AliasBytes"] = func(p *Path, fn *ssa.Function, args []Value) Value {
+		s := args[0].(*Slice)
+		if s.Obj == nil || s.Obj.Buf == nil {
+			return s
+		}
+		p.nobj++
+		o := &Obj{ID: p.nobj, Buf: s.Obj.Buf, Name: "mapping#" + fmt.Sprint(p.nobj)}
+		if off, ok := p.cint(s.Off); ok && off == 0 {
+			if n, ok := p.cint(s.Len); ok {
+				o.Lim = n
+			}
+		}
+		return &Slice{Obj: o, Off: s.Off, Len: s.Len, Cap: s.Cap}
 	}
 	// ShareBytes(dst, src []byte): dst becomes a view of the same buffer object (mmap MAP_SHARED).
 	in["vrt.UF"] = func(p *Path, fn *ssa.Function, args []Value) Value {
@@ -440,6 +454,23 @@ func (e *Engine) initIntrinsics() {
 	}
 	in["golang.org/x/telemetry/internal/crashmonitor.sentinel"] = func(p *Path, fn *ssa.Function, args []Value) Value {
 		return p.tt.Var("child_sentinel", BV(64))
+	}
+	in["regexp.MustCompile"] = func(p *Path, fn *ssa.Function, args []Value) Value {
+		pat, _ := strConcrete(args[0].(*Str))
+		t := fn.Signature.Results().At(0).Type().(*types.Pointer).Elem()
+		return &Ptr{Obj: &Obj{ID: -1, T: t, V: &Opaque{Kind: "regexp", Data: pat}, Name: "regexp:" + pat}}
+	}
+	in["(*regexp.Regexp).FindStringSubmatch"] = func(p *Path, fn *ssa.Function, args []Value) Value {
+		re := args[0].(*Ptr)
+		if re.Obj == nil {
+			p.goPanicRuntime("nil *regexp.Regexp")
+		}
+		const datePat = `(\d\d\d\d-\d\d-\d\d)[.]json$`
+		if re.Obj.Name != "regexp:"+datePat {
+			panic(p.unsupported("regexp %q has no model", re.Obj.Name))
+		}
+		h := p.eng.findFunc("golang.org/x/telemetry/internal/vrt.DateREFind")
+		return p.callFunction(h, []Value{args[1]}, nil)
 	}
 	in["os.Getenv"] = func(p *Path, fn *ssa.Function, args []Value) Value { return &Str{} }
 	in["os.Exit"] = func(p *Path, fn *ssa.Function, args []Value) Value {
